@@ -109,12 +109,12 @@ def parseAddr (s : String) : Option Addr :=
 def parseTime (s : String) : Option GoTime :=
   if s = "z" then some none else s.toInt?.map some
 
-/-- player `j` of a planted record (`storeops.ParseServer`, part `p<K>`): `details.Player{Name: "p<j>", Score: j}`, every other
+/-- player `j` of a planted record (`storeops.ParseServer`, part `p<K>`): `details.Player{Name: "p<j>@<addr>", Score: j + port % 7}`, every other
 field zero, in the field order of the generated schema -/
-def plantedPlayer (j : Nat) : Fields :=
+def plantedPlayer (a : Addr) (j : Nat) : Fields :=
   Facts.detailsPlayerSchema.map fun (name, _, kind, _) =>
-    if name = "Name" then Val.str (Bytes.ofAscii s!"p{j}")
-    else if name = "Score" then Val.int j
+    if name = "Name" then Val.str (Bytes.ofAscii s!"p{j}@{a.render}")
+    else if name = "Score" then Val.int (j + a.port % 7)
     else if kind = 1 then Val.bool false else if kind = 2 then Val.str [] else Val.int 0
 
 /-- `<ip>:<port>/<queryport>/<status>/<version>/<refreshedNs|z>`; info and details are the zero values; optional `/p<K>`: K planted players -/
@@ -128,7 +128,7 @@ def parseServer (s : String) : Option Server :=
     let rf ← parseTime rf
     let k ← if pk.startsWith "p" then (pk.drop 1).toNat? else none
     pure { addr := a, queryPort := qp, status := BitVec.ofNat 9 st, info := zeroInfo,
-           details := ⟨zeroInfo, (List.range k).map plantedPlayer, []⟩, refreshedAt := rf, version := ver }
+           details := ⟨zeroInfo, (List.range k).map (plantedPlayer a), []⟩, refreshedAt := rf, version := ver }
   | [a, qp, st, ver, rf] => do
     let a ← parseAddr a
     let qp ← qp.toInt?
